@@ -18,6 +18,7 @@ GenInit == /\ rev \in RevSeqs
            /\ nstep = 0 /\ last = NoResult
            /\ Reach
 GenNext == \/ \E w \in W, k \in U : Apply(w, k)
+           \/ \E w \in W, j \in 0..MaxRev, t \in {0, 1} : ApplyForeign(w, j, t)
            \/ \E k \in U, g \in 0..MaxRev, h \in 0..MaxRev, p \in BOOLEAN : Prepend(k, g, h, p)
 
 \* projection to what the harness constructs and observes (times instead of object pointers)
@@ -29,13 +30,25 @@ EmitT == PrintT(<<"T", ToJson([rev |-> rev, wit |-> PW(wit[1], tobj), upd |-> PU
 \* ---- two-step sequences: a FAILING first call (which must leave everything as it was), or a successful Prepend, followed by Apply on the
 \* same real objects; the harness constructs the pre-state once and runs both calls, so state left behind by the
 \* failed call (e.g. a polluted product memo) shows in the second result
+\* The update object receives ANOTHER genuine message of its own chain by decoding (json.Unmarshal into the used variable):
+\* events f..n, the current accumulator signed at time t. Nothing memoised for the old content may survive.
+\* (Only in the generator: with one witness and one update nobody else holds the update's accumulator object.)
+Redecode(k, f, t) ==
+  /\ upd[k].made /\ nstep < MaxApply /\ f \in 0..(n + 1)
+  /\ nstep' = nstep + 1
+  /\ upd' = [upd EXCEPT ![k] = [made |-> TRUE, first |-> f, last |-> n, o |-> upd[k].o, memo |-> None]]
+  /\ tobj' = [tobj EXCEPT ![upd[k].o] = t]
+  /\ last' = [op |-> "redecode", w |-> 0, k |-> k, res |-> "ok", g |-> f, h |-> t, p |-> FALSE]
+  /\ UNCHANGED <<rev, wit>>
 VARIABLE first
 Failing(res) == res \in {"toonew", "revoked", "invalidated", "missing", "rejected"}
 Gen2Init == GenInit /\ first = [rev |-> <<>>, wit |-> PW(wit[1], tobj), upd |-> PU(upd[1], tobj), act |-> NoResult]
 Gen2Next == \/ /\ nstep = 0
                /\ \/ \E w \in W, k \in U : Apply(w, k)
                   \/ \E k \in U, g \in 0..MaxRev, h \in 0..MaxRev, p \in BOOLEAN : Prepend(k, g, h, p) \/ PrependForeign(k, g, h, p)
-               /\ (Failing(last'.res) \/ (last'.op = "prepend" /\ last'.res = "ok"))      \* or a successful Prepend: what it memoises shows in the Apply
+                  \/ \E w \in W, j \in 0..MaxRev, t \in {0, 1} : ApplyForeign(w, j, t)
+                  \/ \E k \in U, f \in 0..(MaxRev + 1), t \in {0, 1} : Redecode(k, f, t)
+               /\ (Failing(last'.res) \/ (last'.op \in {"prepend", "redecode"} /\ last'.res = "ok") \/ last'.op = "applyforeign")      \* or a successful Prepend: what it memoises shows in the Apply
                /\ first' = [rev |-> rev, wit |-> PW(wit[1], tobj), upd |-> PU(upd[1], tobj), act |-> last']
             \/ /\ nstep = 1 /\ \E w \in W, k \in U : Apply(w, k)
                /\ UNCHANGED first
